@@ -1426,6 +1426,14 @@ impl ProtocolState {
 
                 if let Err(error) = validate_packet_outbound_internal(packet, &validation_context) {
                     warn!("[{} ms] service_queue - {} operation {} failed last-chance validation", self.elapsed_time_ms, mqtt_packet_to_str(packet), current_operation_id);
+
+                    // Alias resolution has already recorded a binding for a publish that will
+                    // never reach the server.  Forget all outbound bindings so that no later
+                    // publish refers to an alias the server has not seen.
+                    if let (MqttPacket::Publish(_), Some(settings)) = (packet, &self.current_settings) {
+                        self.outbound_alias_resolver.borrow_mut().reset_for_new_connection(settings.topic_alias_maximum_to_server);
+                    }
+
                     self.current_operation = None;
                     self.complete_operation_as_failure(current_operation_id, error)?;
                     continue;
